@@ -143,6 +143,26 @@ def write_pkg(d, pkgdir, fname='k.go'):
         json.dump(d, f)
 
 
+def write_group(decls, pkgdir, fname='k.go'):
+    """several declarations in ONE file of one package (shared name pool of one generator invocation)"""
+    os.makedirs(pkgdir, exist_ok=True)
+    imports = ['"github.com/mazrean/kessoku"', '"%s"' % RT_IMPORT]
+    if any(uses_ctx(d) for d in decls):
+        imports.insert(0, '"context"')
+    s = 'package main\n\nimport (\n\t%s\n)\n\n' % '\n\t'.join(imports)
+    for d in decls:
+        s += emit_types(d) + '\n'
+        for p in d['providers']:
+            if p['kind'] == 'fn':
+                s += emit_provider_fn(d, p) + '\n'
+    for d in decls:
+        s += emit_inject(d)
+    with open(os.path.join(pkgdir, fname), 'w') as f:
+        f.write(s)
+    with open(os.path.join(pkgdir, 'decls.json'), 'w') as f:
+        json.dump(decls, f)
+
+
 GOMOD = """module scratch
 
 go 1.24.0
